@@ -110,8 +110,12 @@ func (r *reducer) minimise(p *progen.Program, template bool, clause string) *pro
 	return red
 }
 
+// keyOf: the violated clause plus the control-flow signature of the minimal program (see
+// progen.Signature) -- coarse enough that the many 1-minimal programs of one defect share a key,
+// fine enough that a defect in another construct gets another key. The minimal program itself
+// (the smallest seen for the key) is kept in the replay file.
 func keyOf(clause string, template bool, min *progen.Program) string {
-	k := clause + " :: " + min.Text()
+	k := clause + " [" + strings.Join(progen.Signature(min), " ") + "]"
 	if template {
 		k = "template-only " + k
 	}
@@ -137,6 +141,7 @@ type failRec struct {
 	Template bool            `json:"template"`
 	Program  json.RawMessage `json:"program"`
 	Source   string          `json:"source"`
+	Text     string          `json:"text"`
 	From     string          `json:"from"` // id of the first generated program that reduced to this key
 	Detail   string          `json:"detail"`
 	N        int64           `json:"n"`
@@ -222,13 +227,17 @@ func progWorker(w *pool.W, arg json.RawMessage) {
 				tonly = true
 			}
 			key := keyOf(v.Clause, tonly, min)
-			if f := fails[key]; f != nil {
-				f.N++
-			} else {
+			f := fails[key]
+			if f == nil || min.Size() < f.Size || (min.Size() == f.Size && min.Text() < f.Text) {
 				mv, _ := check(min, tmpl)
-				fails[key] = &failRec{Key: key, Clause: v.Clause, Size: min.Size(), Template: tmpl, Program: min.JSON(),
-					Source: min.Source(tmpl), From: it.ID, Detail: detail(mv), N: 1}
+				nf := &failRec{Key: key, Clause: v.Clause, Size: min.Size(), Template: tmpl, Program: min.JSON(), Text: min.Text(),
+					Source: min.Source(tmpl), From: it.ID, Detail: detail(mv)}
+				if f != nil {
+					nf.N = f.N
+				}
+				fails[key], f = nf, nf
 			}
+			f.N++
 			if tmpl {
 				continue
 			}
@@ -328,7 +337,8 @@ func main() {
 		case "fail":
 			f := r.Fail
 			failN[f.Key] += f.N
-			c.Fail(f.Key, f.Clause, f.Size, map[string]any{"program": f.Program, "template": f.Template, "source": f.Source, "first_seen_in": f.From}, f.Detail)
+			// size*1000 + text order: the representative is deterministic across shard arrival order
+			c.Fail(f.Key, f.Clause, f.Size*1000+int(textOrder(f.Text)), map[string]any{"program": f.Program, "template": f.Template, "source": f.Source, "minimal": f.Text, "first_seen_in": f.From}, f.Detail)
 		case "generr":
 			c.HarnessError("generator produced a program outside the reference subset: %s", r.Msg)
 		case "sample":
@@ -375,6 +385,18 @@ func main() {
 	c.Finish(total, runs+redTests, runs,
 		fmt.Sprintf("every program of families F1 (chains <= %d over 9 constructs x 8 payloads x variants), F2 (functions), F3 (fast paths/aliasing), F4 (all %d-statement lists over the alphabet), %d iterations per loop, run in plain and <?php mode and compared with the reference interpreter; distinct = distinct reference outputs",
 			b.F1Depth, b.F4Len, b.Iter))
+}
+
+// textOrder maps a text to 0..999 monotonically in its first two bytes (tie-break only).
+func textOrder(t string) int64 {
+	var v int64
+	for i := 0; i < 2; i++ {
+		v *= 31
+		if i < len(t) {
+			v += int64(t[i]) % 31
+		}
+	}
+	return v % 1000
 }
 
 func replay(c *ev.Check) {
